@@ -74,6 +74,19 @@ func Matches(pass *analysis.Pass, qs ...pattern.Pattern) iter.Seq2[ast.Node, *pa
 	}
 }
 
+// lookupSymbol resolves a symbol of a pattern as seen from the package of index.
+// Symbols without a package path are predeclared identifiers such as len.
+func lookupSymbol(index *typeindex.Index, isym pattern.IndexSymbol) types.Object {
+	switch {
+	case isym.Type != "":
+		return index.Selection(isym.Path, isym.Type, isym.Ident)
+	case isym.Path == "":
+		return types.Universe.Lookup(isym.Ident)
+	default:
+		return index.Object(isym.Path, isym.Ident)
+	}
+}
+
 // rootCallees returns the objects whose call sites are the only candidates for q.
 // It reports false if the candidates cannot be found through the index of calls:
 // q has no root call symbols, or one of them names a type, whose "calls" are conversions.
@@ -84,12 +97,7 @@ func rootCallees(pass *analysis.Pass, q pattern.Pattern) ([]types.Object, bool) 
 	index := pass.ResultOf[typeindexanalyzer.Analyzer].(*typeindex.Index)
 	objs := make([]types.Object, 0, len(q.RootCallSymbols))
 	for _, isym := range q.RootCallSymbols {
-		var obj types.Object
-		if isym.Type == "" {
-			obj = index.Object(isym.Path, isym.Ident)
-		} else {
-			obj = index.Selection(isym.Path, isym.Type, isym.Ident)
-		}
+		obj := lookupSymbol(index, isym)
 		if _, ok := obj.(*types.TypeName); ok {
 			return nil, false
 		}
@@ -124,11 +132,7 @@ func CouldMatchAny(pass *analysis.Pass, qs ...pattern.Pattern) bool {
 			}
 			return true
 		case pattern.IndexSymbol:
-			if node.Type == "" {
-				return index.Object(node.Path, node.Ident) != nil
-			} else {
-				return index.Selection(node.Path, node.Type, node.Ident) != nil
-			}
+			return lookupSymbol(index, node) != nil
 		default:
 			panic(fmt.Sprintf("internal error: unexpected type %T", node))
 		}
